@@ -37,6 +37,7 @@ def main():
             if not ok:
                 aud["undischarged"].append(("leanchecker", log[-300:]))
         mod.run(ctx, drv)
+        ctx.stats["driver_request_lines"] = drv.lines
         return common.finish(ctx, aud, getattr(mod, "extra_coverage", lambda c: None)(ctx))
     except common.Infra as e:
         print(f"[{a.prop}] infrastructure error: {e}", file=sys.stderr)
